@@ -7,9 +7,9 @@ of nanoseconds, which the driver drains completely (`mode=seq big=1`).
   — `1e9 / ops`, `float64(i) * billionDivOps`, `float64(duration) / 1e9`, `ops * xn`, the conversions to an integer —
   carried out in exact integer arithmetic: a positive float64 is `m · 2^e`, every operation computes the exact rational
   result and rounds it to 53 significant bits, ties to even (IEEE 754 round-to-nearest-even; no subnormals, no
-  overflow: the values here lie between 10^-9 and 10^19).  `Gen/C02Const.lean` is the source re-translated over an
-  abstract interface of float operations, `Bridge/C02Const.lean` shows that instantiated with these operations it is
-  `constCount` / `constOff`.
+  overflow: the values here lie between 10^-9 and 10^19).  `Gen/Schedule.lean` (`NewConst_fl`, `constDoAt_fl`) is the
+  source re-translated with every float operation passed through a rounding function, `Bridge/C02Const.lean` shows that
+  for a rounding function that rounds as these operations do it is `constCount` / `constOff`.
 * `BLeaf`: the leaf over a described part (`off i` instead of `offs[i]?`, `n` instead of `offs.length`); the composite
   is the SAME generic `compOps` / `newComposite` of `Model/C02Sched.lean`, iterated over `BLvl d`.
   `Proofs/C02Big.lean` shows that this is the list model on the expanded offsets `(List.range n).map off`.
